@@ -3,6 +3,7 @@ package scen
 import (
 	"fmt"
 	"strings"
+	"time"
 
 	"verif/memnet"
 	"verif/mqttref"
@@ -83,7 +84,8 @@ type Broker struct {
 	Silent         bool // process nothing, answer nothing (link stays up)
 	SilentPingOnly bool // answer everything except PINGREQ
 	unacked        []outPending
-	Deaf           map[int]bool // connections on which PINGREQ is never answered again (everything else is)
+	PingDelay      time.Duration // PINGRESP is sent this much later (slow but alive)
+	Deaf           map[int]bool  // connections on which PINGREQ is never answered again (everything else is)
 
 	// OnConnect lists messages pushed to the client right behind each CONNACK
 	// (index = connection ordinal-1; the last entry repeats).
@@ -375,7 +377,18 @@ func (b *Broker) process(c *memnet.Conn, bc *bconn, p *mqttref.Packet, kind stri
 		resp = append(resp, bresp{mqttref.EncAck(mqttref.UNSUBACK, p.ID), ""})
 	case mqttref.PINGREQ:
 		if !b.SilentPingOnly && !b.Deaf[c.ID] {
-			resp = append(resp, bresp{mqttref.EncPingResp(), ""})
+			if b.PingDelay > 0 {
+				go func(d time.Duration) {
+					time.Sleep(d)
+					b.Tr.Mu.Lock()
+					if c.OpenLocked() {
+						c.SendLocked(mqttref.EncPingResp(), "delayed PINGRESP")
+					}
+					b.Tr.Mu.Unlock()
+				}(b.PingDelay)
+			} else {
+				resp = append(resp, bresp{mqttref.EncPingResp(), ""})
+			}
 		}
 	case mqttref.DISCONNECT:
 		return nil, true
